@@ -62,7 +62,7 @@ def main():
         res["repo_head"] = sh(["git", "-C", "/repo", "rev-parse", "--short",
                                "HEAD"])[1].strip()
         demo = os.path.join(d, "demo.py")
-        env = dict(os.environ, PYTHONDONTWRITEBYTECODE="1")
+        env = dict(os.environ, PYTHONDONTWRITEBYTECODE="1", PYTHONPATH=wt)
         if os.path.exists(demo):
             os.makedirs(os.path.join(wt, "_deliver"), exist_ok=True)
             shutil.copy(demo, os.path.join(wt, "_deliver", "demo.py"))
